@@ -73,6 +73,13 @@ def gen_dir_model(rng, u, n, reg=(), bmc_style=False, small=True, fixtures=True,
             pel.sections.insert(rng.randrange(1, len(pel.sections) + 1), ps)
         eids.update((pel.eid, pel.plid, pel.bmcid))
         pels.append(pel)
+    if pels and rng.random() < 0.4:
+        # ids at the ends of the range: 0 and 0xFFFFFFFF are ids like any other (a test such as `if eid:` on a number, or a
+        # -1 sentinel, singles them out)
+        v, f = rng.choice([0, 0, 0xFFFFFFFF]), rng.choice(["eid", "eid", "plid"])
+        if v not in eids:
+            rng.choice(pels).ph[f] = v
+            eids.add(v)
     names = gen_names(rng, n, bmc_style, [p.eid for p in pels])
     return [Entry(nm, p, p.encode()) for nm, p in zip(names, pels)]
 
